@@ -928,7 +928,7 @@ fn main() {
     let thorough = s.thorough();
     s.run_cases(
         "restart_histories",
-        s.scale(2_000, 50_000),
+        s.scale(60_000, 1_500_000),
         || case_strategy(thorough),
         check_case,
     );
